@@ -84,7 +84,7 @@ def scan_assumptions(lines, origin):
 
 
 def run_verus(path, extra=()):
-    cmd = ['verus', path, '--error-format=json', '--multiple-errors', '200',
+    cmd = ['verus', path, '--error-format=json', '--multiple-errors', '200', '--rlimit', '30',
            '--output-json', '--time-expanded'] + list(extra)
     t0 = time.time()
     p = sh(cmd, cwd=VERIF)
